@@ -423,6 +423,33 @@ func init() {
 				c06Case(c, c06Replay{Kind: "c06", Depth: dr, Names: nr, Exts: nil, Route: "md", Target: "empty", Pre: map[string]byte{fmt.Sprintf("root%03d", p): kind}})
 			}
 		}
+		// two things wrong at once: a root exists already AND the tree has a name the OS will refuse (over-long) — the
+		// call fails with the path-exists error and nothing changes, as for any tree whose root exists
+		for _, route := range []string{"md", "root"} {
+			if !c.Take() {
+				continue
+			}
+			long := strings.Repeat("n", 300)
+			for _, kind := range []byte{'d', 'f'} {
+				j := fsx.NewJail("c06x")
+				fsx.Populate(j.Target, map[string]byte{"a": kind})
+				before := fsx.Snapshot(j.Root)
+				var err error
+				pan := sut.Guard(func() {
+					if route == "root" {
+						err = gtree.MkdirFromRoot(sut.BuildRoot(&model.Node{Name: "a", Kids: []*model.Node{{Name: "b", Kids: []*model.Node{{Name: long}}}}}), gtree.WithTargetDir(j.Target))
+					} else {
+						err = gtree.MkdirFromMarkdown(strings.NewReader("- z\n  - "+long+"\n- a\n  - b\n"), gtree.WithTargetDir(j.Target))
+					}
+				})
+				c.Eval()
+				c.Nontrivial()
+				if pan != "" || !errors.Is(err, gtree.ErrExistPath) || !before.Equal(fsx.Snapshot(j.Root)) {
+					c.Violation("C06|existing-root-not-reported|with-an-over-long-name-elsewhere", fmt.Sprintf("route=%s existing root as %c: err=%v panic=%q changes=%s", route, kind, err, pan, fsx.Diff(before, fsx.Snapshot(j.Root))), 1, nil)
+				}
+				j.Remove()
+			}
+		}
 		// OS refusals on the real file system: over-long name, target below a regular file
 		for _, route := range []string{"md", "root"} {
 			if !c.Take() {
